@@ -166,6 +166,15 @@ class Defer:
             self.defer.get_command_result(),
             self.args)
 
+    def discard(self) -> None:
+        """Drop the deferred computation.
+
+        The result of the command is collected and ignored, so that the
+        process is not left with a pending command.
+        """
+        if getattr(self.defer, '_pending_command', None):
+            self.defer.get_command_result()
+
 
 class EmptyDefer(Defer):
     def __init__(self) -> None:
@@ -897,6 +906,12 @@ class Engine:
 
     def _remove_deleted_processes(self) -> None:
         '''Remove deleted processes from the front.'''
+        for path, progress in self.front.items():
+            if path not in self.process_paths and progress['update']:
+                # The process was deleted or moved away with an update
+                # in flight. Discard the update, or a process that lives
+                # on under a new path would keep a pending command.
+                progress['update'][0].discard()
         self.front = {
             path: progress
             for path, progress in self.front.items()
